@@ -18,16 +18,20 @@
 (* MaxTag is scaled down so pool exhaustion is reachable.                   *)
 (* FixRelease = TRUE: _ReleaseTag returns only outstanding tags to the pool *)
 (* (3c8df46); FALSE is the code as it was.                                  *)
+(* FixSent = TRUE: _ProcessTaggedReply drops a frame naming a tag whose     *)
+(* request is still in the send queue (the peer cannot be answering it);    *)
+(* FALSE is the code as it was: the frame completes the queued request and  *)
+(* frees its tag, which is then on the wire twice.                          *)
 (* The adversarial peer may name any tag 0..MaxTag at any time.  One case   *)
 (* is outside the claim: a stray frame (naming a tag that was not on the    *)
 (* wire when the peer sent it) that the client gets to process after it has *)
-(* given that very tag to a request -- no client can tell it from the       *)
-(* answer.  Such a run is marked `strayset = {0}` (tainted) and uniqueness  *)
+(* given that very tag to a request AND written that request -- no client  *)
+(* can tell it from the answer.  Such a run is marked `strayset = {0}` (tainted) and uniqueness  *)
 (* is not asserted on it; TransportAbs makes the matching allowance.        *)
 (***************************************************************************)
 EXTENDS Integers, Sequences, FiniteSets, TLC
 
-CONSTANTS Reqs, MaxTag, FixRelease, MaxStray
+CONSTANTS Reqs, MaxTag, FixRelease, FixSent, MaxStray
 
 VARIABLES st, pool, tagmap, tagkey, sendq, inbound, replyq, tproc, evt, sub, unans,
           got, viol, strays, written, strayset
@@ -144,8 +148,8 @@ ProcessReply ==
   /\ replyq # <<>>
   /\ LET tag == Head(replyq)[2] IN
      /\ replyq' = Tail(replyq)
-     /\ strayset' = IF Head(replyq)[1] = -3 /\ tag \in DOMAIN tagmap THEN {0} ELSE strayset
-     /\ IF tag = 0 \/ st # "Open"
+     /\ strayset' = IF Head(replyq)[1] = -3 /\ tag \in DOMAIN tagmap /\ tag \notin AllocatedUnwritten THEN {0} ELSE strayset
+     /\ IF tag = 0 \/ st # "Open" \/ (FixSent /\ tag \in DOMAIN tagmap /\ tag \in AllocatedUnwritten)
         THEN UNCHANGED <<pool, tagmap, tagkey, got>>
         ELSE LET rel == Release(tag, tagmap, pool) IN
              /\ tagmap' = rel.map /\ pool' = rel.pool
